@@ -253,3 +253,48 @@ pub(crate) fn protocol_point(point: usize) {
         std::thread::sleep(std::time::Duration::from_micros(d));
     }
 }
+
+/// A value whose drops are counted, for `VReplySlotWriter` / `VReplySlotReader`.
+pub struct VReply(pub u64, std::sync::Arc<std::sync::atomic::AtomicUsize>);
+
+impl Drop for VReply {
+    fn drop(&mut self) {
+        self.1.fetch_add(1, std::sync::atomic::Ordering::SeqCst);
+    }
+}
+
+/// `util::slot::SlotWriter<VReply>`.
+pub struct VReplySlotWriter(
+    crate::util::slot::SlotWriter<VReply>,
+    std::sync::Arc<std::sync::atomic::AtomicUsize>,
+);
+
+/// `util::slot::SlotReader<VReply>`.
+pub struct VReplySlotReader(crate::util::slot::SlotReader<VReply>);
+
+/// `util::slot::slot()`; `drops` counts the drops of the values written.
+pub fn vreply_slot(
+    drops: std::sync::Arc<std::sync::atomic::AtomicUsize>,
+) -> (VReplySlotWriter, VReplySlotReader) {
+    let (w, r) = crate::util::slot::slot();
+    (VReplySlotWriter(w, drops), VReplySlotReader(r))
+}
+
+impl VReplySlotWriter {
+    /// `SlotWriter::write`; `true` for `Ok`.
+    pub fn write(self, value: u64) -> bool {
+        let drops = self.1.clone();
+        self.0.write(VReply(value, drops)).is_ok()
+    }
+}
+
+impl VReplySlotReader {
+    /// `SlotReader::try_read`: the value, or 1 for `NoValue`, 2 for `Closed`.
+    pub fn try_read(&mut self) -> Result<u64, u8> {
+        match self.0.try_read() {
+            Ok(v) => Ok(v.0),
+            Err(crate::util::slot::ReadError::NoValue) => Err(1),
+            Err(crate::util::slot::ReadError::Closed) => Err(2),
+        }
+    }
+}
